@@ -438,7 +438,7 @@ class RunCtx:
 
 # --------------------------------------------------------- class generation --
 def _make_process(name: str, mode: str) -> Any:
-    if mode == "async":
+    if mode in ("async", "async_tag_inline", "async_tag_process"):
         async def process(self: Any, **kwargs: Any) -> Any:
             rc: RunCtx = CUR.get()
             rc.start(name)
@@ -484,9 +484,9 @@ def build_classes(spec: Spec) -> Dict[str, type]:
         procs[nd.name] = proc
         ns: Dict[str, Any] = {"process": proc, "name": nd.name, "__module__": "verif_generated",
                               "__doc__": "generated node " + nd.name}
-        if nd.mode == "inline":
-            ns["tags"] = ("non_async",)
-        elif nd.mode == "process":
+        if nd.mode in ("inline", "async_tag_inline"):
+            ns["tags"] = ("non_async",)  # on a coroutine node the tag is irrelevant: coroutines always run on the loop
+        elif nd.mode in ("process", "async_tag_process"):
             ns["tags"] = ("process",)
         elif nd.mode == "thread":
             ns["tags"] = ()
@@ -538,6 +538,11 @@ def make_event_manager() -> type:
     class RecordingEvents:
         async def _cb(self, name: str, ctx: Any, **kw: Any) -> None:
             rc: RunCtx = CUR.get()
+            owner = getattr(self, "_verif_owner", None)
+            if owner is None:
+                self._verif_owner = rc  # each run gets its own manager object (state kept on it must not be shared)
+            elif owner is not rc and "event_manager" not in rc.reused:
+                rc.reused.append("event_manager")
             rc.ev_calls += 1
             n = rc.ev_calls
             rc.events.append((rc._rec("ev", name, kw.get("node_id")), name, kw, ctx))
@@ -572,6 +577,11 @@ def make_store() -> type:
     class RecordingStore(ArtifactStore):
         async def save(self, node_id: str, data: Any) -> None:
             rc: RunCtx = CUR.get()
+            owner = getattr(self, "_verif_owner", None)
+            if owner is None:
+                self._verif_owner = rc
+            elif owner is not rc and "artifact_store" not in rc.reused:
+                rc.reused.append("artifact_store")
             rc.save_calls += 1
             n = rc.save_calls
             rc._rec("save", node_id, None)
